@@ -22,3 +22,23 @@ CHECKS["C11"] = dict(
     assumptions=["pop()/top()->... only on a non-empty heap (callers' precondition)",
                  "handles of elements placed by buildFrom() are unknown to the caller and only reachable through top()"],
 )
+
+CHECKS["C12"] = dict(
+    src="harness/C12_pdf.cpp",
+    cases=dict(quick=400000, thorough=6000000),
+    fuzz=dict(runs=8000000, maxlen=400),
+    rule="Case = generated history (<=50 ops) of add / update / remove / clear / sample(r) on ompl::PDF<int>, optionally starting from the "
+         "vector constructor; weights from {0, small ints, 0.1-style non-representables, 1e-3, uniform reals} and in 19% of cases also "
+         "1e12 / 1e-12; r from {0, 1, uniform, a cumulative boundary +-1 ulp}. Oracle = exact (long double) prefix-sum model in the "
+         "structure's own element order (swap-with-last rule), handle/weight/size after every op, returned reference must be a stored "
+         "element. Non-trivial = a sample() taken after a remove() of a non-last element with >=3 elements left; distinct = distinct "
+         "consumed choice-byte prefix.",
+    technique="model-based property testing of operation histories (exact prefix-sum model) + libFuzzer on the same target",
+    level_text="Generated edit/sample histories are compared after every step with an exact prefix-sum model; a returned reference "
+               "outside the stored elements is detected by address comparison as well as by ASan/UBSan. Exploration-level.",
+    level_note="Trusted: long-double model sums; interval membership is accepted within 1e-9 x (largest total weight held since the "
+               "structure was last empty), the error scale of the structure's incremental double sums.",
+    assumptions=["weights are non-negative and r in [0,1] (the structure throws otherwise; not generated)",
+                 "sample() with total weight exactly 0 is not judged (no element has a non-empty interval)",
+                 "interval tolerance 1e-9 * max total weight since last empty (incremental floating-point sums)"],
+)
